@@ -16,6 +16,10 @@ pub struct Walker<'src>
     /// The current nesting depth of braced blocks,
     /// tracked by the parser.
     pub block_nesting_depth: usize,
+
+    /// The nesting depth of the expression that encloses
+    /// the text of this walker, tracked by the parser.
+    pub expr_nesting_depth: usize,
 }
 
 
@@ -35,6 +39,7 @@ impl<'src> Walker<'src>
             cursor_index: 0,
             cursor_limit: src.len(),
             block_nesting_depth: 0,
+            expr_nesting_depth: 0,
 		};
 		
 		walker
@@ -57,6 +62,7 @@ impl<'src> Walker<'src>
             cursor_index: 0,
             cursor_limit: src.len(),
             block_nesting_depth: self.block_nesting_depth,
+            expr_nesting_depth: self.expr_nesting_depth,
 		};
 		
 		walker
